@@ -272,6 +272,7 @@ func hangExit(x *Ctx, caseJSON []byte, what string) {
 // ---------------------------------------------------------------------------------
 
 var currentCaseJSON []byte // for hangExit from deep inside checks
+var currentCtx *Ctx         // the case being checked (for guard)
 
 func runProp(t *testing.T, id string) {
 	p := registry[id]
@@ -302,6 +303,7 @@ func runProp(t *testing.T, id string) {
 		currentCaseJSON = cj
 		writeCurrent(id, cj)
 		x := &Ctx{Prop: id}
+		currentCtx = x
 		p.Check(c, x)
 		st.record(x, cj)
 		var fresh []Violation
@@ -341,6 +343,7 @@ func runEnum(t *testing.T, p *Prop, kf map[string]string) {
 		currentCaseJSON = cj
 		writeCurrent(p.ID, cj)
 		x := &Ctx{Prop: p.ID}
+		currentCtx = x
 		p.Check(c, x)
 		x.Class("enumerated")
 		st.record(x, cj)
@@ -389,6 +392,7 @@ func replayProp(t *testing.T, p *Prop, path string) {
 	kf := knownFindings()
 	for i := 0; i < reps; i++ {
 		x := &Ctx{Prop: p.ID, replay: true}
+		currentCtx = x
 		p.Check(c, x)
 		for _, v := range x.viol {
 			if _, ok := kf[p.ID+" "+v.Sig]; ok {
